@@ -60,3 +60,29 @@ def register(reg):
         return outs
     c.apply = apply
     reg.add(c)
+
+
+def register_format(reg):
+    """format_color's own contract (verified by engine A on its real AST): the format table of C06."""
+    CV = 'cm_colors.core.conversions'
+    for fn in ('rgb_to_hex', 'rgb_to_hsl'):
+        reg.add(Contract(f'{CV}:{fn}', params={'rgb' if fn == 'rgb_to_hex' else 'rgb_color': 'rgb'},
+                         pre=lambda S, a: S.true, result='str', pure=True, raises=(),
+                         posts={}, assumed=f'{fn}: total on 8-bit int triples, returns a CSS string that reads back as the triple (engine D, all 2^24, check C06)'))
+    def table(S, a, r):
+        f, t = a.format_type, a.rgb
+        hexs = S.pure_value('rgb_to_hex', [t], 'str'); hsls = S.pure_value('rgb_to_hsl', [t], 'str')
+        is_ = lambda lit: S.str_eq(f, S.lit(lit))
+        def same_str(x):
+            return S.str_eq(r, x) if isinstance(r, VStr) else S.false
+        return S.And(
+            S.Implies(is_('rgb_tuple'), S.teq(r, t) if isinstance(r, VTuple) else S.false),
+            S.Implies(is_('hex'), same_str(hexs)),
+            S.Implies(is_('hsl'), same_str(hsls)),
+            S.Implies(is_('rgb'), S.And(S.true if isinstance(r, VStr) and r.sym and r.sym[0] == 'rgbstr' else S.false,
+                                        S.teq(S.payload(r), t) if isinstance(r, VStr) and r.sym and r.sym[0] == 'rgbstr' else S.false)),
+            S.Implies(S.Not(S.Or(is_('rgb_tuple'), is_('hex'), is_('hsl'), is_('rgb'))), same_str(hexs)))
+    reg.add(Contract(
+        f'{CP}:format_color#table', params={'rgb': 'rgb', 'format_type': 'str'},
+        pre=lambda S, a: S.rgb8(a.rgb), result='unk', pure=False, raises=(),
+        posts={'format_table': table}, props={'format_table': ['C06']}))
